@@ -13,7 +13,7 @@ is invisible with frozen containers (`|=` rebinds a frozenset) and corrupts the 
     plain            built under the option from private plain `set` / `dict` copies of the definition;
     aliased          like plain, and containers that a caller may legitimately share ARE shared: ONE set object
                      for all target sets with the same content (`to_accept = {q1}` used for several rows /
-                     symbols), for a target set that equals `final_states` / `states` that very object, and
+                     symbols), for a non-empty target set that equals `final_states` / `states` that very object, and
                      `final_states is states` when every state is final;
     aliased_rows     like plain, and rows with the same content are ONE dict object (with its target sets);
     copy_of_plain    like plain, then `.copy()` under the option: the copy shares every container with an
@@ -33,6 +33,11 @@ import automata.base.config as global_config
 from automata.fa.nfa import NFA
 
 MODES = ["plain", "aliased", "aliased_rows", "copy_of_plain", "copy_of_aliased"]
+MODE_WEIGHTS = [4, 7, 3, 3, 3]
+
+
+def pick_mode(rng) -> str:
+    return rng.choices(MODES, MODE_WEIGHTS)[0]
 
 
 class mutable_option:
@@ -84,7 +89,7 @@ def build_live(ref: NFA, mode: str, keep: Optional[List[Any]] = None) -> NFA:
         states, finals = kw["states"], kw["final_states"]
         if finals == states:
             kw["final_states"] = finals = states
-        pool: List[set] = [finals, states] if finals is not states else [states]
+        pool: List[set] = [x for x in ([finals, states] if finals is not states else [states]) if x]
         for row in kw["transitions"].values():
             for a, ts in row.items():
                 for other in pool:
@@ -121,3 +126,35 @@ def sharing_of(n: NFA) -> int:
     extra += sum(1 for x in (n.states, n.final_states) if id(x) in ids)
     extra += len(n.transitions) - len({id(r) for r in n.transitions.values()})
     return extra + (1 if n.states is n.final_states else 0)
+
+
+def pooled_nfa(rng, alphabet, max_states: int = 4, names: Optional[List[Any]] = None) -> NFA:
+    """An operand as a caller writes it who names a few target sets once and uses them in many places
+    (`to_accept = {q1}`, `anywhere = {s0, s2}`): every non-ε entry is one of 1–3 distinct target sets, ε-moves are
+    frequent (so that closures add targets to entries), most states have rows.  Built frozen here; in the
+    `aliased` modes of build_live equal sets become ONE object."""
+    k = rng.randint(2, max_states)
+    st = (list(names) if names else list(range(k)))[:k]
+    k = len(st)
+    pool = []
+    for _ in range(rng.randint(1, 3)):
+        pool.append({q for q in st if rng.random() < rng.choice([0.3, 0.5])} or {rng.choice(st)})
+    tr = {}
+    for q in st:
+        if q != st[0] and rng.random() < 0.1:
+            continue
+        row = {}
+        for a in alphabet:
+            if rng.random() < 0.75:
+                row[a] = set(rng.choice(pool))
+        if rng.random() < 0.45:
+            row[""] = {rng.choice(st) for _ in range(rng.randint(1, 2))}
+        items = list(row.items())
+        rng.shuffle(items)
+        tr[q] = dict(items)
+    tr.setdefault(st[0], {})
+    fin = {q for q in st if rng.random() < 0.4} or {rng.choice(st)}
+    if rng.random() < 0.15:
+        fin = set(st)
+    with mutable_option(False):
+        return NFA(states=set(st), input_symbols=set(alphabet), transitions=tr, initial_state=st[0], final_states=fin)
